@@ -177,6 +177,56 @@ def loader_case(fields):
         shutil.rmtree(d, ignore_errors=True)
 
 
+def loader_table_case(args):
+    """(lines of a table file) -> ('ok', number of rows) | ('err', ...): every line of the file is a row; none may be skipped or end the reading."""
+    lines = args
+    from valiant.codon_table_loader import load_codon_table_rows
+    d = tempfile.mkdtemp(prefix='vvt_', dir=common.scratch_root())
+    fp = os.path.join(d, 't.csv')
+    try:
+        with open(fp, 'w') as fh:
+            fh.write(''.join(x + '\n' for x in lines))
+        try:
+            return ('ok', [(str(r.codon), str(r.aa), r.rank) for r in load_codon_table_rows(fp)])
+        except ValueError:
+            return ('err', 'ValueError')
+        except Exception as ex:
+            return ('err', 'OtherErr:' + type(ex).__name__)
+    finally:
+        import shutil
+        shutil.rmtree(d, ignore_errors=True)
+
+
+def loader_tables(ctx: Ctx):
+    """Whole files: n valid rows, with or without one defective line (empty, short, bad rank) at any position, the last included."""
+    rng = ctx.rng
+    base = [','.join(map(str, r)) for r in gen.load_default_table()]
+    common.use_repo()
+    for _ in range(ctx.n(60, 600)):
+        n = rng.choice([1, 2, 5, 20, 64])
+        lines = rng.sample(base, n)
+        kind = rng.choice(['valid', 'empty_line', 'empty_line', 'short_row', 'bad_rank'])
+        k = rng.choice([0, n // 2, max(0, n - 1), n])
+        if kind == 'empty_line':
+            lines.insert(k, '')
+        elif kind == 'short_row':
+            lines.insert(k, 'ACG,T,0.5')
+        elif kind == 'bad_rank':
+            lines.insert(k, 'ACG,T,0.5,RANKQ')
+        r = loader_table_case(lines)
+        ctx.evaluations += 1
+        ctx.count('loader_table:' + kind)
+        if kind != 'valid':
+            ctx.nontriv(('table', kind, n, k))
+        if kind == 'valid':
+            want = [tuple(x.split(',')[:2]) for x in lines]
+            if r[0] != 'ok' or [(c, a) for c, a, _ in r[1]] != want:
+                ctx.violation('spec_violation', f'a table of {n} valid rows is not loaded row by row: {str(r)[:120]}', {'surface': 'loader_table', 'lines': lines, 'impl': list(r)})
+        elif r[0] == 'ok':
+            ctx.violation('spec_violation', f'a table with a defective line ({kind} at line {k + 1} of {n + 1}) is accepted with {len(r[1])} rows',
+                          {'surface': 'loader_table', 'lines': lines, 'impl': ['ok', len(r[1])]})
+
+
 def valid_row_spec(fields) -> bool:
     """README / property: 4 columns, codon = 3 letters of ACGT, amino acid one character or STOP,
     frequency a number in [0,1], rank RANK followed by U/T/UT or an integer."""
@@ -233,13 +283,16 @@ def run_pair(args):
 def files(ctx: Ctx):
     rng = ctx.rng
     jobs = []
-    for i in range(ctx.n(16, 150)):
+    for i in range(ctx.n(24, 150)):
         d = gen.gen_sge(rng, {'p_bg': 0.0, 'p_table': 1.0, 'allow_junction_pam': False, 'cds_mut': ['ala', 'stop', 'aa', 'snvre'], 'p_gtf': 1.0})
         d2 = json.loads(json.dumps(d))
         if i % 4 == 3:
             # malformed table: must be refused
             k = rng.randrange(len(d2['codon_table']))
-            d2['codon_table'][k] = rng.choice([['ACG', 'T', '0.5'], ['AC', 'T', '0.5', 'RANK1'], ['ACG', 'T', '2', 'RANK1'], ['ACG', 'T', '0.5', 'RANKQ'], ['ACG', 'TT', '0.5', 'RANK1']])
+            if rng.random() < 0.35:
+                d2['codon_table'].insert(k, [])      # an empty line inside the table (the rows after it must not be silently ignored)
+            else:
+                d2['codon_table'][k] = rng.choice([['ACG', 'T', '0.5'], ['AC', 'T', '0.5', 'RANK1'], ['ACG', 'T', '2', 'RANK1'], ['ACG', 'T', '0.5', 'RANKQ'], ['ACG', 'TT', '0.5', 'RANK1']])
             d2['_malformed'] = True
         else:
             rng.shuffle(d2['codon_table'])
@@ -337,6 +390,7 @@ def both_strands(ctx: Ctx):
 def run(ctx: Ctx):
     tables(ctx)
     loader(ctx)
+    loader_tables(ctx)
     mutators(ctx)
     files(ctx)
     both_strands(ctx)
@@ -363,6 +417,10 @@ def replay(ctx: Ctx, path: str) -> int:
         res = cc.api_region(tuple(k))
         exp = cc.oracle_rows(*k)
         bad = exp is not None and (res[0] != 'ok' or c03.rowset(exp, k[6]) != c03.rowset(res[1], k[6]))
+    elif c.get('surface') == 'loader_table':
+        r = loader_table_case(c['lines'])
+        defective = any(x == '' or len(x.split(',')) != 4 or x.endswith('RANKQ') for x in c['lines'])
+        bad = (r[0] == 'ok') == defective or (not defective and [(a, b) for a, b, _ in r[1]] != [tuple(x.split(',')[:2]) for x in c['lines']])
     elif c.get('surface') == 'api' and 'rows' in c:
         rows = [tuple(r) for r in c['rows']]
         out = impl_lookups((rows, c['rc']))
